@@ -5,6 +5,9 @@ package dastard
 import (
 	"os"
 	"path/filepath"
+	"time"
+
+	"github.com/usnistgov/dastard/packets"
 )
 
 // c11RealProcessing: the core loop runs the real ProcessSegments (C17) instead of a summary.
@@ -51,6 +54,16 @@ func c11Start(kind int) *SourceControl {
 		ts := NewTriangleSource()
 		ts.Configure(&TriangleSourceConfig{Nchan: 2, SampleRate: 10000, Min: 100, Max: c11TriangleMax})
 		ds = ts
+	} else if kind == 2 {
+		// an Abaco source behind a scripted packet producer: getNextBlock launches a
+		// block-assembly goroutine per call, as the hardware sources do
+		as := new(AbacoSource)
+		as.name = "Abaco"
+		as.groups = make(map[GroupIndex]*AbacoGroup)
+		as.channelsPerPixel = 1
+		as.subframeDivisions = abacoSubframeDivisions
+		as.producers = []PacketProducer{&c10Producer{sample: [][]*packets.Packet{c10DataPackets()}}}
+		ds = as
 	} else {
 		ds = NewErroringSource()
 	}
@@ -72,9 +85,10 @@ func c11Start(kind int) *SourceControl {
 var c11Kinds = []string{"ConfigureTriggers", "ConfigurePulseLengths", "WriteControl", "SetExperimentStateLabel", "WriteComment",
 	"CoupleErrToFB", "CoupleFBToErr", "AddGroupTriggerCoupling", "DeleteGroupTriggerCoupling", "StopTriggerCoupling", "StoreRawDataBlock", "ConfigureMixFraction"}
 
-// c11Request issues one control request with symbolic arguments and returns (error, whether
-// the arguments were valid per the property's list).
-func c11Request(sc *SourceControl, kind int, tag string, nchan int) (error, bool, bool) {
+// c11Prepare builds one control request with symbolic arguments and returns (a function that
+// issues it — any number of times, with the same arguments —, whether the arguments were valid
+// per the property's list, whether validity is known).
+func c11Prepare(sc *SourceControl, kind int, tag string, nchan int) (func() error, bool, bool) {
 	var reply bool
 	valid, known := true, true
 	switch c11Kinds[kind] {
@@ -88,53 +102,59 @@ func c11Request(sc *SourceControl, kind int, tag string, nchan int) (error, bool
 		valid = nidx > 0 && idx >= 0 && idx < nchan
 		st := &FullTriggerState{ChannelIndices: list}
 		st.LevelTrigger, st.LevelRising, st.LevelLevel = true, true, RawType(vSymU16("level"+tag))
-		return sc.ConfigureTriggers(st, &reply), valid, known
+		return func() error { return sc.ConfigureTriggers(st, &reply) }, valid, known
 	case "ConfigurePulseLengths":
 		ns, np := vRange("nsamp"+tag, -1, 6), vRange("npre"+tag, -1, 6)
 		valid = np >= 3 && ns >= np+1
-		return sc.ConfigurePulseLengths(SizeObject{Nsamp: ns, Npre: np}, &reply), valid, known
+		return func() error { return sc.ConfigurePulseLengths(SizeObject{Nsamp: ns, Npre: np}, &reply) }, valid, known
 	case "WriteControl":
 		reqs := []string{"START", "STOP", "PAUSE", "UNPAUSE", "UNPAUSE x", "UNPAUSEx", "bogus"}
 		r := vRange("wreq"+tag, 0, len(reqs)-1)
 		known = false // validity depends on the writing state: only "exactly one reply, no hang, no crash" here
-		return sc.WriteControl(&WriteControlConfig{Request: reqs[r], WriteLJH22: true}, &reply), valid, known
+		return func() error { return sc.WriteControl(&WriteControlConfig{Request: reqs[r], WriteLJH22: true}, &reply) }, valid, known
 	case "SetExperimentStateLabel":
 		lab := []string{"", "calib"}[vRange("label"+tag, 0, 1)]
 		known = false
-		return sc.SetExperimentStateLabel(&StateLabelConfig{Label: lab, WaitForError: true}, &reply), valid, known
+		return func() error { return sc.SetExperimentStateLabel(&StateLabelConfig{Label: lab, WaitForError: true}, &reply) }, valid, known
 	case "WriteComment":
 		c := []string{"", "a comment"}[vRange("comment"+tag, 0, 1)]
 		valid = c != ""
-		return sc.WriteComment(&c, &reply), valid, known
+		return func() error { return sc.WriteComment(&c, &reply) }, valid, known
 	case "CoupleErrToFB":
 		b := vRange("couple"+tag, 0, 1) == 1
 		known = false // generic sources refuse coupling: an error reply is right
-		return sc.CoupleErrToFB(&b, &reply), valid, known
+		return func() error { return sc.CoupleErrToFB(&b, &reply) }, valid, known
 	case "CoupleFBToErr":
 		b := vRange("couple"+tag, 0, 1) == 1
 		known = false
-		return sc.CoupleFBToErr(&b, &reply), valid, known
+		return func() error { return sc.CoupleFBToErr(&b, &reply) }, valid, known
 	case "AddGroupTriggerCoupling", "DeleteGroupTriggerCoupling":
 		s, r := vRange("src"+tag, -1, nchan), vRange("rcv"+tag, -1, nchan)
 		gts := GroupTriggerState{Connections: map[int][]int{s: {r}}}
 		valid = s >= 0 && s < nchan && r >= 0 && r < nchan
 		if c11Kinds[kind] == "AddGroupTriggerCoupling" {
-			return sc.AddGroupTriggerCoupling(gts, &reply), valid, known
+			return func() error { return sc.AddGroupTriggerCoupling(gts, &reply) }, valid, known
 		}
 		known = false // deleting a connection that cannot exist is harmless
-		return sc.DeleteGroupTriggerCoupling(&gts, &reply), valid, known
+		return func() error { return sc.DeleteGroupTriggerCoupling(&gts, &reply) }, valid, known
 	case "StopTriggerCoupling":
 		var d bool
-		return sc.StopTriggerCoupling(&d, &reply), valid, known
+		return func() error { return sc.StopTriggerCoupling(&d, &reply) }, valid, known
 	case "StoreRawDataBlock":
 		n := []int{-2, -1, 100000}[vRange("nraw"+tag, 0, 2)]
 		valid = n > 0
 		var name string
-		return sc.StoreRawDataBlock(n, &name), valid, known
+		return func() error { return sc.StoreRawDataBlock(n, &name) }, valid, known
 	default:
 		known = false
-		return sc.ConfigureMixFraction(&MixFractionObject{ChannelIndices: []int{0}, MixFractions: []float64{0.5}}, &reply), valid, known
+		return func() error { return sc.ConfigureMixFraction(&MixFractionObject{ChannelIndices: []int{0}, MixFractions: []float64{0.5}}, &reply) }, valid, known
 	}
+}
+
+// c11Request issues the request once.
+func c11Request(sc *SourceControl, kind int, tag string, nchan int) (error, bool, bool) {
+	do, valid, known := c11Prepare(sc, kind, tag, nchan)
+	return do(), valid, known
 }
 
 // verifC11Requests: one control request with symbolic arguments (and possibly one I/O fault
@@ -159,10 +179,12 @@ func verifC11Requests() {
 		ws := sc.ActiveSource.ComputeWritingState()
 		os.RemoveAll(filepath.Dir(ws.FilenamePattern))
 	}
-	err, valid, known := c11Request(sc, kind, "0", nchan)
+	do, valid, known := c11Prepare(sc, kind, "0", nchan)
+	err := do()
 	vFaults(0)
 	if !valid {
 		vCheck(err != nil, "invalid arguments are answered with an error")
+		vCheck(do() != nil, "the same invalid request is answered with an error again")
 	} else if known && !writing {
 		_ = err
 	}
@@ -202,6 +224,21 @@ func verifC11Dead() {
 // (every order of the two): the caller gets exactly one reply either way.
 func verifC11Dying() {
 	vWatchdog(20)
+	if !vSymbolic() {
+		// native replay: hold the core loop back once, so that the request is already
+		// waiting (and its retry timer has fired) when the loop chooses between the
+		// request and the source's error block — the interleavings the engine explores
+		hits := 0
+		VerifHook = func(name string, args ...interface{}) {
+			if name == "coreloop:select" {
+				hits++
+				if hits == 1 {
+					time.Sleep(150 * time.Millisecond)
+				}
+			}
+		}
+		defer func() { VerifHook = nil }()
+	}
 	sc := c11Start(1)
 	kind := []int{5, 9, 0}[vRange("request", 0, 2)] // CoupleErrToFB, StopTriggerCoupling, ConfigureTriggers
 	err, _, _ := c11Request(sc, kind, "0", 1)
@@ -212,4 +249,27 @@ func verifC11Dying() {
 	vCheck(!sc.isSourceActive, "the server has noticed that the source ended")
 	vObserve("kind", int64(kind))
 	vWitness("c11dying-end")
+}
+
+// verifC11Abaco: control requests against a running source whose getNextBlock launches a
+// block-assembly goroutine per call (Abaco; Lancero is built the same way): each request is
+// answered, the core loop keeps exactly one assembly in flight, and Stop ends the run without
+// a crash.
+func verifC11Abaco() {
+	vWatchdog(20)
+	vTimersQuiet()
+	sc := c11Start(2)
+	nreq := vRange("nrequests", 1, 2)
+	for k := 0; k < nreq; k++ {
+		var d, reply bool
+		vCheck(sc.StopTriggerCoupling(&d, &reply) == nil, "a request to the running source is answered")
+	}
+	var dummy string
+	var reply bool
+	vCheck(sc.Stop(&dummy, &reply) == nil, "Stop is answered")
+	vSettle(100)
+	vCheck(sc.ActiveSource.GetState() == Inactive, "after Stop the source is inactive")
+	vCheck(vLiveGoroutines() <= 1, "no block-assembly or reader goroutine is left behind")
+	vObserve("nreq", int64(nreq))
+	vWitness("c11abaco-end")
 }
